@@ -14,7 +14,10 @@ observer("ICircuitOperation.listing", params=dict(self=OP), returns=SEQ(OP), rea
 # contract; the composite implementation is checked by the bounded stand-ins of C01/C02)
 DECOMP_ENS = ["seq_is(result, self.listing)",
               # every operation that HAS a relation keeps it (only relation-less first-level operations receive the block's link)
-              "forall_obj(ICircuitOperation, lambda o: old(o.relation_link.reference_node) is None or o.relation_link is old(o.relation_link))"]
+              "forall_obj(ICircuitOperation, lambda o: old(o.relation_link.reference_node) is None or o.relation_link is old(o.relation_link))",
+              # for TREES (ghost relations of contracts/c06.py): nothing outside the own sub-tree is touched, and not the own link
+              "not self.tree_ok or forall_obj(ICircuitOperation, lambda o: self.inside(o) or o.relation_link is old(o.relation_link))",
+              "not self.tree_ok or self.relation_link is old(self.relation_link)"]
 contract("ICircuitOperation.decomposed_operations", params=dict(self=OP), returns=SEQ(OP), verify=False, modifies=REL_FIELDS,
          ensures=DECOMP_ENS)
 contract("CircuitCompositeOperation.decomposed_operations", params=dict(self=REF("CircuitCompositeOperation")), returns=SEQ(OP), verify=False,
